@@ -28,6 +28,7 @@ from mpservice.streamer._streamer_async import AsyncParmapper, AsyncParmapperAsy
 
 MODEL = 'afifo'
 BASE = 100  # element i is the value BASE + i
+PP = 1000   # the preprocessor (when there is one) maps x to x + PP; the worker must be given that value
 
 
 class SrcError(Exception):
@@ -158,6 +159,7 @@ class _Book:
         self.running = 0
         self.max_running = 0
         self.excs = {}     # index -> the very exception object raised for that element
+        self.off = BASE + (PP if case['pre'] else 0)   # what the worker has to subtract from its argument
 
     def pre(self, x):
         i = x - BASE
@@ -166,7 +168,7 @@ class _Book:
             e = PreError(i)
             self.excs[('pre', i)] = e
             raise e
-        return x
+        return x + PP
 
     def enter(self, i):
         self.calls[i] = self.calls.get(i, 0) + 1
@@ -179,6 +181,8 @@ class _Book:
         self.log(('finish', i))
 
     def outcome(self, i):
+        if not 0 <= i < self.case['n']:
+            return ('fed-unprocessed-input', i)
         if i in self.re:
             e = WorkError(i)
             self.excs[('work', i)] = e
@@ -245,10 +249,10 @@ def _run_async(case, real_loop=False):
             raise StopRequested()
 
     async def awork(x):
-        i = x - BASE
+        i = x - book.off
         book.enter(i)
         try:
-            if dur[i]:
+            if 0 <= i < n and dur[i]:
                 await asyncio.sleep(dur[i])
             return book.outcome(i)
         finally:
@@ -256,12 +260,12 @@ def _run_async(case, real_loop=False):
 
     def work_factory(x):
         # what AsyncParmapperAsync calls as `self._func(x)`: creating the coroutine = submitting
-        log(('submit', x - BASE))
+        log(('submit', x - book.off))
         return awork(x)
 
     def swork(x):
         # sync worker for AsyncParmapper (thread pool); no durations: the OS decides the order
-        i = x - BASE
+        i = x - book.off
         book.enter(i)
         try:
             return book.outcome(i)
@@ -273,7 +277,7 @@ def _run_async(case, real_loop=False):
         pre = book.pre if case['pre'] else None
         if kind == 'afifo':
             async def func(x):
-                log(('submit', x - BASE))
+                log(('submit', x - book.off))
                 return loop.create_task(awork(x))
             gen = async_fifo_stream(Src(), func, capacity=case['cap'], return_x=case['retx'],
                                     return_exceptions=case['rexc'], preprocessor=pre)
@@ -359,7 +363,7 @@ def _run_sync(case):
             raise StopRequested()
 
     def work(x):
-        i = x - BASE
+        i = x - book.off
         book.calls[i] = book.calls.get(i, 0) + 1
         return book.outcome(i)
 
